@@ -850,6 +850,7 @@ func (in *Interp) RunPath(fn *ssa.Function, args []Value, model []uint64, bound 
 	in.mjournal = in.mjournal[:0]
 	in.frozenAll = false
 	in.onceDepth = 0
+	in.pools = nil
 	in.NoFork = 0
 	in.curDeferFrame = in.curDeferFrame[:0]
 	in.pathBaseID = in.nextID
